@@ -1,5 +1,171 @@
-"""Compiled part of C06 (filled in once the E2 engine exists)."""
+"""Compiled part of C06: every emitted entry point forwards exactly like direct dispatch; an
+overridden kind is served by the override in the multitest impl and nowhere else."""
+import itertools
+import json
+
+from . import core, model, e2, fam_basic
+from .model import Method, Arg, Contract
+
+KINDS6 = ["instantiate", "exec", "query", "sudo", "migrate", "reply"]
+
+OVR_MOD = """
+pub mod ovr {
+    use super::*;
+    pub type InstantiateMsgX = super::sv::InstantiateMsg;
+    pub type ExecMsgX = super::sv::ContractExecMsg;
+    pub type QueryMsgX = super::sv::ContractQueryMsg;
+    pub type SudoMsgX = super::sv::ContractSudoMsg;
+    pub type MigrateMsgX = super::sv::MigrateMsg;
+    pub type ReplyMsgX = Reply;
+    pub fn instantiate_ep(_d: cw_std::DepsMut, _e: cw_std::Env, _i: cw_std::MessageInfo, _m: InstantiateMsgX) -> StdResult<Response> { Ok(Response::new().add_attribute("override", "instantiate")) }
+    pub fn exec_ep(_d: cw_std::DepsMut, _e: cw_std::Env, _i: cw_std::MessageInfo, _m: ExecMsgX) -> StdResult<Response> { Ok(Response::new().add_attribute("override", "exec")) }
+    pub fn query_ep(_d: cw_std::Deps, _e: cw_std::Env, _m: QueryMsgX) -> StdResult<Binary> { cw_std::to_json_binary("override:query") }
+    pub fn sudo_ep(_d: cw_std::DepsMut, _e: cw_std::Env, _m: SudoMsgX) -> StdResult<Response> { Ok(Response::new().add_attribute("override", "sudo")) }
+    pub fn migrate_ep(_d: cw_std::DepsMut, _e: cw_std::Env, _m: MigrateMsgX) -> StdResult<Response> { Ok(Response::new().add_attribute("override", "migrate")) }
+    pub fn reply_ep(_d: cw_std::DepsMut, _e: cw_std::Env, _m: ReplyMsgX) -> StdResult<Response> { Ok(Response::new().add_attribute("override", "reply")) }
+}
+"""
+
+
+def program(over):
+    ms = [Method("instantiate", "inst", (Arg("a", "u32"),)),
+          Method("migrate", "mig", (Arg("v", "u32"),)),
+          Method("exec", "foo", (Arg("x", "u32"), Arg("y", "String"))),
+          Method("exec", "bar", ()),
+          Method("query", "get_x", (Arg("k", "u32"),)),
+          Method("sudo", "sd", (Arg("z", "bool"),)),
+          Method("reply", "rp", (Arg("result", "SubMsgResult"), Arg("payload", "Binary", ("#[sv::payload(raw)]",))))]
+    overrides = tuple("%s=ovr::%s_ep(ovr::%sMsgX)" % (k, k, k.capitalize()) for k in KINDS6 if k in over)
+    return Contract(methods=tuple(ms), overrides=overrides, features="replies", entry_points="")
+
+
+def subsets(tier):
+    if tier == "thorough":
+        for n in range(7):
+            for s in itertools.combinations(KINDS6, n):
+                yield frozenset(s)
+    else:
+        yield frozenset()
+        for k in KINDS6:
+            yield frozenset([k])
+        yield frozenset(KINDS6)
+        yield frozenset(["exec", "query"])
+        yield frozenset(["instantiate", "query"])
+        yield frozenset(["sudo", "migrate", "reply"])
+        yield frozenset(k for k in KINDS6 if k != "query")
+
+
+def pid_of(over):
+    return "pov_" + ("_".join(k[:3] for k in KINDS6 if k in over) or "none")
+
+
+def programs(tier):
+    return [(pid_of(o), program(o)) for o in subsets(tier)]
+
+
+def render(pid, c, fw="sylvia"):
+    glue = e2.subject_impl(e2.basic_glue(c, None))
+    text = e2.render_program(pid, c, fw=fw, glue=glue)
+    return text.replace("pub struct Ct;", OVR_MOD + "\npub struct Ct;", 1)
+
+
+# monkey-patch friendly: the renamed corpus renders through e2.render_program, so the override module is spliced there too
+_orig_render = e2.render_program
+
+
+def _render_with_ovr(pid, c, fw="sylvia", style="echo", glue=""):
+    text = _orig_render(pid, c, fw=fw, style=style, glue=glue)
+    if c.overrides and "pub mod ovr" not in text and any("ovr::" in o for o in c.overrides):
+        text = text.replace("pub struct Ct;", OVR_MOD + "\npub struct Ct;", 1)
+    return text
+
+
+e2.render_program = _render_with_ovr
 
 
 def run_into(res, tier):
-    return
+    cp = e2.Corpus("override-" + tier)
+    progs = [(o, pid_of(o), program(o)) for o in subsets(tier)]
+    for over, pid, c in progs:
+        cp.add(pid, e2.render_program(pid, c, glue=e2.subject_impl(e2.basic_glue(c, None))))
+    cp.write()
+    cp.build()
+    from .fam_reply import reply_doc
+    cases, exp = [], []
+    for over, pid, c in progs:
+        if pid in cp.failed:
+            res.violation({"kind": "compile", "cls": "override_program_rejected", "pid": pid, "over": sorted(over), "diags": cp.failed[pid][:3],
+                           "what": "%s: contract overriding %s does not compile: %s" % (pid, sorted(over), cp.failed[pid][0]["message"])})
+            continue
+        for (label, disp, m) in fam_basic.handlers(c, include_reply=True):
+            if m.kind == "reply":
+                docs = [reply_doc(0, b"pl", 3, True, [], None, []), reply_doc(0, b"", 0, False)]
+            else:
+                docs = [fam_basic.doc(m, t) for t in fam_basic.value_tuples(m)[:3]]
+            for d in docs:
+                for cx in (fam_basic.CONTEXTS[1], fam_basic.FAIL_CONTEXTS[0]):
+                    for op in ("ep", "mt", "dispatch"):
+                        if op == "dispatch" and m.kind == "reply":
+                            continue
+                        part = "wrapper" if m.kind in ("exec", "query", "sudo") else "contract"
+                        cases.append({"prog": pid, "op": op, "kind": m.kind, "part": part if op == "dispatch" else "", "input": d, "ctx": cx})
+                        exp.append((over, pid, m, d, cx, op))
+    obs = cp.run_cases(cases)
+    by = {}
+    for case, e, o in zip(cases, exp, obs):
+        over, pid, m, d, cx, op = e
+        by[(pid, m.kind, d, json.dumps(cx, sort_keys=True), op)] = o
+    for case, e, o in zip(cases, exp, obs):
+        over, pid, m, d, cx, op = e
+        if op == "dispatch":
+            continue
+        res.add(states=1, transitions=1, traces=1, evaluations=1)
+        res.mark_nontrivial("e2:%s|%s|%s|%s" % (pid, m.kind, d, op))
+        direct = by.get((pid, m.kind, d, json.dumps(cx, sort_keys=True), "dispatch"))
+        overridden = m.kind in over
+
+        def bad(what, cls):
+            res.violation({"kind": "forwarding", "cls": cls, "pid": pid, "over": sorted(over), "entry": m.kind, "via": op, "doc": d, "ctx": cx, "obs": o, "direct": direct,
+                           "what": "%s (overridden: %s) %s %s with %s: %s" % (pid, sorted(over), m.kind, "entry point" if op == "ep" else "multitest entry", d, what)})
+        if "panic" in o:
+            bad("panic %s" % o["panic"], "panic")
+            continue
+        if op == "ep":
+            if overridden:
+                if not o.get("absent"):
+                    bad("an entry point was generated although the kind is overridden", "not_absent")
+                continue
+            if o.get("absent"):
+                bad("no entry point generated although the kind is not overridden", "absent")
+                continue
+            if m.kind == "reply":
+                ref = by.get((pid, m.kind, d, json.dumps(cx, sort_keys=True), "mt"))
+                if not ("reply" in over):
+                    for fld in ("res", "resp", "storage"):
+                        if o.get(fld) != ref.get(fld):
+                            bad("%s differs from the multitest reply path" % fld, "reply_diff")
+                continue
+            for fld in ("res", "resp", "bin", "storage", "err"):
+                if o.get(fld) != direct.get(fld):
+                    bad("%s differs from direct dispatch: %s vs %s" % (fld, json.dumps(o.get(fld))[:300], json.dumps(direct.get(fld))[:300]), "forward_" + fld)
+                    break
+            res.outcome(("forward", m.kind, o.get("res")))
+        else:
+            marker = None
+            if o.get("res") == "ok":
+                if "resp" in o:
+                    marker = next((a["value"] for a in o["resp"].get("attributes", []) if a["key"] == "override"), None)
+                elif o.get("bin") == '"override:query"':
+                    marker = "query"
+            res.outcome(("mt", overridden, marker))
+            if overridden and marker != m.kind:
+                bad("multitest entry of an overridden kind did not reach its override (marker %s)" % marker, "mt_override_missed")
+            if not overridden and marker is not None:
+                bad("multitest entry of a non-overridden kind reached the `%s` override" % marker, "mt_foreign_override")
+            if not overridden and m.kind != "reply":
+                for fld in ("res", "resp", "bin", "storage"):
+                    if o.get(fld) != direct.get(fld):
+                        bad("%s differs from direct dispatch" % fld, "mt_diff")
+                        break
+    res.parts["e2_override_programs"] = len(progs)
+    res.parts["e2_cases"] = len(cases)
